@@ -15,7 +15,8 @@ for k in sorted(R):
 first_missed = [k for k in R if R[k]['first'].startswith('MISSED')]
 nfif = [k for k in R if R[k]['first'].startswith('no-failing')]
 now_missed = [k for k in R if R[k]['now'].startswith('MISSED') or R[k]['now'].startswith('pending')]
-cross = [k for k in R if 'caught by C' in R[k]['now'] and not R[k]['now'].startswith('caught (')]
+import re
+cross = [k for k in R if re.search(r'caught by (the )?C\d\d', R[k]['now']) and not R[k]['now'].startswith('caught (')]
 out += ["", f"First run: {len(R)-len(first_missed)-len(nfif)} of {len(R)} reported with a failing input, {len(nfif)} as no-failing-input-found, {len(first_missed)} missed ({', '.join(sorted(first_missed))}).",
         f"Now: not caught by any check: {', '.join(sorted(now_missed)) or 'none'}; caught with a failing input only by the check of ANOTHER property: {', '.join(sorted(cross)) or 'none'}."]
 open('/verif/seeded/RESULTS.md', 'w').write("\n".join(out) + "\n")
